@@ -109,11 +109,15 @@ func hasProp(ps []string, id string) bool {
 
 func specPaths(pc *PropConfig) []string {
 	var out []string
-	for _, s := range pc.Specs {
+	seen := map[string]bool{}
+	for _, s := range append([]string{"prelude.spec", "std.spec"}, pc.Specs...) {
 		if !filepath.IsAbs(s) {
 			s = filepath.Join(verifRoot, "specs", s)
 		}
-		out = append(out, s)
+		if !seen[s] {
+			seen[s] = true
+			out = append(out, s)
+		}
 	}
 	return out
 }
